@@ -414,7 +414,7 @@ enum POp {
     Sine1,
     Take,
     Get,
-    /// through a write guard: set(3) then set(4) (nobody may see 3)
+    /// through a write guard: set(30) then set(40) (nobody may see 30)
     Guard34,
 }
 
@@ -441,15 +441,15 @@ fn run_pop(ob: &SharedObservable<u32>, op: POp, h: &History) {
             h.record(|| ob.get(), |v| OpK::Get(*v));
         }
         POp::Guard34 => {
-            // one atomic step for everybody else: previous value -> 4
+            // one atomic step for everybody else: previous value -> 40
             h.record(
                 || {
                     let mut g = ob.write();
-                    let p = ObservableWriteGuard::set(&mut g, 3);
-                    ObservableWriteGuard::set(&mut g, 4);
+                    let p = ObservableWriteGuard::set(&mut g, 30);
+                    ObservableWriteGuard::set(&mut g, 40);
                     p
                 },
-                |p| OpK::Set(4, *p),
+                |p| OpK::Set(40, *p),
             );
         }
     }
@@ -482,7 +482,7 @@ fn program(a: Vec<POp>, b: Vec<POp>) {
     let f = ob.get();
     let recs = h.take();
     vassert(linearizable(0, &recs, f), || format!("program {a:?} || {b:?}: history {recs:?} with final value {f} is not linearizable"));
-    vassert(recs.iter().all(|r| !matches!(r.op, OpK::Get(3) | OpK::Set(_, 3))), || format!("program {a:?} || {b:?}: somebody saw the value 3 that only exists inside a write guard: {recs:?}"));
+    vassert(recs.iter().all(|r| !matches!(r.op, OpK::Get(30 | 31) | OpK::Set(_, 30 | 31) | OpK::SetIfNotEq(_, Some(30 | 31)))) && f != 30 && f != 31, || format!("program {a:?} || {b:?}: somebody saw the value 30 that only exists inside a write guard: {recs:?}"));
     // the subscriber ends on the final value, exactly once
     let stored = recs.iter().any(|r| match r.op {
         OpK::Set(..) | OpK::Incr => true,
